@@ -85,6 +85,17 @@ pub struct Sel {
     pub material: Option<Vec<u32>>,
     /// deep DFS without dedup from the first `n` seeds to the given depth
     pub dfs: Option<(usize, u32)>,
+    /// HIST: positions reached by playing moves on the real board (never rebuilt from the model
+    /// position): (depth of the DFS from every seed, depth of the DFS behind every special first
+    /// move from the PROMO / CASTLE / EP roots); 0 switches a part off
+    pub hist: Option<(u32, u32)>,
+    /// MULTICHECK level: 1 = own king on c3, defenders Q N; 2 = + own king on e1 / e8, defender P;
+    /// 3 = own king on the 8 spread squares, attackers up to distance 3, two enemy-king squares
+    pub multicheck: Option<u8>,
+    /// CHECKPIN level: 1 = own king on c3; 2 = + e1 / e8; 3 = the 8 spread squares, two enemy-king squares
+    pub checkpin: Option<u8>,
+    /// CASTLE2 + PAWNROW
+    pub castle2: bool,
 }
 
 impl Sel {
@@ -104,6 +115,10 @@ impl Sel {
                 occ: true,
                 battery: Some((7, true)),
                 boxed: true,
+                hist: Some((4, 3)),
+                multicheck: Some(3),
+                checkpin: Some(3),
+                castle2: true,
                 ..Default::default()
             }
         } else {
@@ -119,6 +134,10 @@ impl Sel {
                 promo2: true,
                 battery: Some((3, false)),
                 boxed: true,
+                hist: Some((3, 2)),
+                multicheck: Some(1),
+                checkpin: Some(1),
+                castle2: true,
                 ..Default::default()
             }
         }
@@ -319,6 +338,98 @@ pub fn run_universes(run: &mut Run, sel: &Sel, disagree_idx: usize, check: PosCh
             },
         );
     }
+    let kzone_kings = |level: u8| -> Vec<usize> {
+        match level {
+            1 => vec![18],
+            2 => vec![18, 4, 60],
+            _ => uni::SPREAD8.to_vec(),
+        }
+    };
+    if let Some(level) = sel.multicheck {
+        let ks = kzone_kings(level);
+        let (maxd, defenders, neks): (i32, &[u8], usize) = match level {
+            1 => (2, &[Q, N], 1),
+            2 => (2, &[Q, N, P], 1),
+            _ => (3, &[Q, N, P], 2),
+        };
+        run.par_shards(&format!("MULTICHECK (three men attacking the king, +- one own defender; level {})", level), ks.len() * 2 * uni::KZONE_PARTS, |ctx, j| {
+            let sh = ks[j / (2 * uni::KZONE_PARTS)] * 2 + (j / uni::KZONE_PARTS) % 2;
+            uni::multicheck(sh, j % uni::KZONE_PARTS, maxd, defenders, neks, &mut |p| visit(ctx, p, disagree_idx, check));
+        });
+    }
+    if let Some(level) = sel.checkpin {
+        let ks = kzone_kings(level);
+        let neks = if level >= 3 { 2 } else { 1 };
+        run.par_shards(&format!("CHECKPIN (a checker, a pinned own man and a free look-alike; level {})", level), ks.len() * 2 * uni::KZONE_PARTS, |ctx, j| {
+            let sh = ks[j / (2 * uni::KZONE_PARTS)] * 2 + (j / uni::KZONE_PARTS) % 2;
+            uni::checkpin(sh, j % uni::KZONE_PARTS, neks, &mut |p| visit(ctx, p, disagree_idx, check));
+        });
+    }
+    if sel.castle2 {
+        run.par_shards("CASTLE2 (king and rooks at home, every pair of enemy men on the three nearest ranks)", uni::CASTLE2_SHARDS, |ctx, sh| {
+            uni::castle2(sh, &mut |p| visit(ctx, p, disagree_idx, check));
+        });
+        run.par_shards("PAWNROW (king and rooks at home, every subset of enemy pawns on the rank in front)", 2, |ctx, sh| {
+            uni::pawnrow(sh as u8, &mut |p| visit(ctx, p, disagree_idx, check));
+        });
+    }
+    if let Some((seed_depth, special_depth)) = sel.hist {
+        if seed_depth > 0 {
+            let seeds = uni::seeds();
+            let mut jobs: Vec<(Pos, Mv)> = Vec::new();
+            for s in &seeds {
+                for m in s.legal() {
+                    jobs.push((*s, m));
+                }
+            }
+            run.par_shards(
+                &format!("HIST-SEEDS: every line of <= {} plies from {} seeds played on the real board (positions reached by history, not rebuilt)", seed_depth, seeds.len()),
+                jobs.len(),
+                |ctx, sh| {
+                    let (root, m) = jobs[sh];
+                    let Some(b) = board_of(&root) else { return };
+                    hist_step(ctx, &root, &root, &b, m, &mut Vec::new(), seed_depth - 1, disagree_idx, check);
+                },
+            );
+        }
+        if special_depth > 0 {
+            // with one further ply (quick tiers) the roots are those whose kings stand on e1 and e8
+            // (either way round) or in the a1 / h8 corners; deeper tiers take every root
+            let narrow = special_depth <= 2;
+            let special = |ctx: &mut Ctx, p: &Pos| {
+                if narrow {
+                    let pair = (p.king_sq(0).unwrap_or(64), p.king_sq(1).unwrap_or(64));
+                    if ![(4usize, 60usize), (60, 4), (0, 63), (63, 0)].contains(&pair) {
+                        return;
+                    }
+                }
+                let Some(b) = board_of(p) else { return };
+                for m in p.legal() {
+                    if m.flag != 0 || m.promo != 0 {
+                        hist_step(ctx, p, p, &b, m, &mut Vec::new(), special_depth - 1, disagree_idx, check);
+                    }
+                }
+            };
+            run.par_shards(&format!("HIST-SPECIAL: PROMO (quick) roots, first move a promotion / double step, then every line of <= {} further plies, on the real board", special_depth - 1), uni::PROMO_SHARDS * 8, |ctx, sh| {
+                let mut i = 0usize;
+                uni::promo(sh / 8, false, &mut |p| {
+                    i += 1;
+                    if i % 8 == sh % 8 {
+                        special(ctx, p);
+                    }
+                });
+            });
+            run.par_shards(&format!("HIST-SPECIAL: CASTLE (quick) roots, first move a castling / double step, then every line of <= {} further plies, on the real board", special_depth - 1), uni::CASTLE_SHARDS, |ctx, sh| {
+                uni::castle(sh, false, &mut |p| special(ctx, p));
+            });
+            run.par_shards(&format!("HIST-SPECIAL: EP (quick, own king on 8 spread squares) roots, first move an en-passant capture / double step, then every line of <= {} further plies, on the real board", special_depth - 1), uni::EP_SHARDS, |ctx, sh| {
+                if !uni::SPREAD8.contains(&(sh / 2)) {
+                    return;
+                }
+                uni::ep(sh, false, &mut |p| special(ctx, p));
+            });
+        }
+    }
     if let Some(maxd) = sel.m4_corner {
         let dist = |a: usize, b: usize| (file_of(a) - file_of(b)).abs().max((rank_of(a) - rank_of(b)).abs());
         // a negative bound means: the white-king-on-h8 half only
@@ -358,7 +469,59 @@ pub fn standard_position_universes(run: &mut Run, thorough: bool, disagree_idx: 
 }
 
 /// replay of a "pos" case (also used for crash cases)
+/// HIST: play `m` from (p, board) on the real board, check the position reached with the board
+/// that was made (not rebuilt), and go on for `left` more plies. Violations found by `check`
+/// are re-labelled with the history that leads to the position.
+#[allow(clippy::too_many_arguments)]
+pub fn hist_step(ctx: &mut Ctx, root: &Pos, p: &Pos, board: &Board, m: Mv, path: &mut Vec<Mv>, left: u32, disagree_idx: usize, check: PosCheck) {
+    use crate::model::text;
+    let Ok(mv) = to_move(p, m) else { return };
+    let nb = match guarded(|| board.make_move(mv)) {
+        Ok(Ok(nb)) => nb,
+        _ => {
+            // a refused or panicking legal move is the business of C02 / C03
+            ctx.add(disagree_idx, 1);
+            return;
+        }
+    };
+    let q = p.apply(m);
+    path.push(m);
+    let first_new = ctx.viol.len();
+    set_slot_pos(&q);
+    if let Err(msg) = guarded(|| check(ctx, &q, &nb)) {
+        ctx.violate(case_pos(&q, "panic"), format!("panic: {}", msg));
+    }
+    for v in ctx.viol[first_new..].iter_mut() {
+        v.case = serde_json::json!({"kind": "hist", "fen": text::fen(root), "path": path.iter().map(|&x| text::uci(x)).collect::<Vec<_>>(), "inner": v.case.clone()});
+    }
+    if left > 0 {
+        for m2 in q.legal() {
+            hist_step(ctx, root, &q, &nb, m2, path, left - 1, disagree_idx, check);
+        }
+    }
+    path.pop();
+}
+
+fn replay_hist(case: &Value, ctx: &mut Ctx, check: PosCheck) {
+    use crate::model::text;
+    let Some(root) = case["fen"].as_str().and_then(text::read_fen) else { return };
+    let Some(mut board) = board_of(&root) else { return };
+    let mut p = root;
+    for u in case["path"].as_array().cloned().unwrap_or_default() {
+        let Some(u) = u.as_str() else { return };
+        let Some(m) = p.legal().into_iter().find(|m| text::uci(*m) == u) else { return };
+        let Ok(mv) = to_move(&p, m) else { return };
+        let Ok(nb) = board.make_move(mv) else { return };
+        board = nb;
+        p = p.apply(m);
+    }
+    check(ctx, &p, &board);
+}
+
 pub fn replay_pos(case: &Value, ctx: &mut Ctx, check: PosCheck) {
+    if case["kind"].as_str() == Some("hist") {
+        return replay_hist(case, ctx, check);
+    }
     let p = match pos_of_case(case) {
         Some(p) => p,
         None => {
@@ -373,4 +536,78 @@ pub fn replay_pos(case: &Value, ctx: &mut Ctx, check: PosCheck) {
             "replay: owlchess does not accept this model-valid position unchanged".into(),
         ),
     }
+}
+
+/// One deep execution on ONE mutable board: make every move of the line with the undo-returning
+/// interface, comparing the board after every ply with a freshly validated board of the model
+/// position (a from-scratch computation of every field, the hash and all sets), then unmake them
+/// all in reverse, comparing with the snapshot taken before each move. Returns the plies made.
+pub fn deep_line(ctx: &mut Ctx, root: &Pos, moves: &[Mv], kind: &str) -> usize {
+    use crate::model::text;
+    use owlchess::moves::{make_move_unchecked, unmake_move_unchecked};
+    let case = |upto: usize| serde_json::json!({"kind": kind, "fen": text::fen(root), "path": moves[..upto].iter().map(|&m| text::uci(m)).collect::<Vec<_>>()});
+    let Some(mut board) = board_of(root) else { return 0 };
+    let mut p = *root;
+    let mut stack = Vec::new();
+    for (i, &m) in moves.iter().enumerate() {
+        if !p.legal().contains(&m) {
+            ctx.violate(case(i + 1), "line move not legal in the model".into());
+            return i;
+        }
+        let Ok(mv) = to_move(&p, m) else { return i };
+        let before = full(&board);
+        let undo = unsafe { make_move_unchecked(&mut board, mv) };
+        stack.push((mv, undo, before));
+        p = p.apply(m);
+        let mut q = p;
+        q.hmc = q.hmc.min(65535);
+        q.fmn = q.fmn.min(65535);
+        ctx.transitions += 1;
+        ctx.states += 1;
+        match board_of(&q) {
+            Some(t) => {
+                let (a, b) = (full(&board), full(&t));
+                if a != b {
+                    ctx.violate(case(i + 1), format!("after ply {} the board made in place differs from a board of the same position built from scratch: {}", i + 1, full_diff(&a, &b)));
+                    return i;
+                }
+            }
+            None => {
+                ctx.violate(case(i + 1), format!("after ply {} the model position is refused by validation", i + 1));
+                return i;
+            }
+        }
+    }
+    let n = stack.len();
+    while let Some((mv, undo, before)) = stack.pop() {
+        unsafe { unmake_move_unchecked(&mut board, mv, undo) };
+        ctx.transitions += 1;
+        let after = full(&board);
+        if after != before {
+            ctx.violate(case(n), format!("unwinding a line of {} plies: after undoing ply {} the board differs from what it was before that ply: {}", n, stack.len() + 1, full_diff(&after, &before)));
+            return n;
+        }
+    }
+    n
+}
+
+/// replay of a `deep_line` case
+pub fn replay_deep(case: &Value, ctx: &mut Ctx, kind: &str) {
+    use crate::model::text;
+    let Some(root) = case["fen"].as_str().and_then(text::read_fen) else { return };
+    let mut p = root;
+    let mut moves = Vec::new();
+    for u in case["path"].as_array().cloned().unwrap_or_default() {
+        let Some(u) = u.as_str() else { return };
+        let Some(m) = p.legal().into_iter().find(|m| text::uci(*m) == u) else { return };
+        moves.push(m);
+        p = p.apply(m);
+    }
+    deep_line(ctx, &root, &moves, kind);
+}
+
+/// the LONG lines of a tier as (root, moves)
+pub fn long_lines(thorough: bool) -> Vec<(Pos, Vec<Mv>)> {
+    let seeds = uni::seeds();
+    uni::long_params(thorough).into_iter().map(|(s, a, b)| (seeds[s], uni::long_line(&seeds[s], a, b, uni::long_max(thorough)))).collect()
 }
